@@ -163,6 +163,10 @@ def main():
     print("candidates: %d, picked %d" % (len(cand), len(pick)), flush=True)
     os.makedirs(os.path.dirname(outp), exist_ok=True)
     prev = json.load(open(outp)) if os.path.exists(outp) else []
+    if "--retest-survivors" in a:
+        # after the checks were strengthened: run the recorded survivors again (same mutants)
+        pick = [{k: r[k] for k in ("file", "line", "op", "new")} for r in prev if r["status"] == "SURVIVED" and not r.get("equivalent")]
+        prev = [r for r in prev if not (r["status"] == "SURVIVED" and not r.get("equivalent"))]
     done = {(r["file"], r["line"], r["new"]) for r in prev}
     pick = [p for p in pick if (p["file"], p["line"], p["new"]) not in done]
     with cf.ThreadPoolExecutor(max_workers=lanes) as ex:
